@@ -203,7 +203,14 @@ func ZZ_C08_IncludedTwice() {
 		zz.Assert(ok && got == c.want, "included-twice/each-copy-sees-its-own-include-vars/"+c.key)
 		t, present := root.Get(c.key)
 		zz.Assert(present, "included-twice/callable/"+c.key)
-		if present && c.key == c.ns+":leaf:show" {
+		if present && c.key == c.ns+":leaf:show" && zz.Param("vars_only", 0) == 1 {
+			// (as a C10 check: only what the copies see of the include statements' variables)
+			if leafInc.AdvancedImport {
+				lv, ok := t.IncludeVars.Get("L")
+				ls, _ := lv.Value.(string)
+				zz.Assert(ok && ls == leafVar, "included-twice/inner-include-vars-kept")
+			}
+		} else if present && c.key == c.ns+":leaf:show" {
 			zz.Assert(t.Deps[0].Task == c.ns+":leaf:dep" && t.Cmds[0].Task == c.ns+":leaf:other", "included-twice/references-carry-own-namespace")
 			zz.Assert(t.Cmds[1].Task == "roottask", "included-twice/root-references-unprefixed")
 			zz.Assert(len(t.Aliases) >= 1 && t.Aliases[0] == c.ns+":leaf:s", "included-twice/aliases-carry-own-namespace")
